@@ -404,6 +404,38 @@ def _subalg_nf(idx, f, opened=None):
     if f.key not in cache:
         op = set()
         node = inline_single_exit_helpers(idx, f.module, f.node, only=lambda c: getattr(c, "module", None) is f.module and c.name.startswith("_"), depth=3, opened=op)
+        # a TAIL call of a private function with the caller's own names as arguments (`return _second_phase(simplex, d)`: the sub-algorithm split in two) is
+        # that function's body: appended in place, whatever its number of exits
+        for _ in range(2):
+            last = node.body[-1] if node.body else None
+            if isinstance(last, ast.Return) and isinstance(last.value, ast.Call) and isinstance(last.value.func, ast.Name) and not last.value.keywords \
+                    and all(isinstance(a_, ast.Name) for a_ in last.value.args):
+                callee = idx.resolve_call(f.module, last.value, None)
+                cn = getattr(callee, "node", None)
+                if isinstance(cn, ast.FunctionDef) and getattr(callee, "cls", None) is None and callee.name.startswith("_") and callee.key != f.key \
+                        and [a_.arg for a_ in cn.args.args] == [a_.id for a_ in last.value.args]:
+                    sub = _subalg_nf(idx, callee, op)
+                    op.add(callee.key)
+                    node.body = node.body[:-1] + [copy.deepcopy(x) for x in strip_docstring(sub.body)]
+                    continue
+            break
+        # `for i, test in enumerate(TABLE, start=k)` with TABLE a literal tuple (also named first) is the literal loop over ((k, e0), (k + 1, e1), ...)
+        local_tuples = {st.targets[0].id: st.value for st in ast.walk(node) if isinstance(st, ast.Assign) and len(st.targets) == 1 and isinstance(st.targets[0], ast.Name)
+                        and isinstance(st.value, (ast.Tuple, ast.List))}
+        for st in ast.walk(node):
+            if isinstance(st, ast.For) and isinstance(st.iter, ast.Call) and call_name(st.iter) == "enumerate" and st.iter.args:
+                tab = st.iter.args[0]
+                tab = local_tuples.get(tab.id) if isinstance(tab, ast.Name) else tab
+                start = 0
+                if len(st.iter.args) > 1:
+                    start = const(st.iter.args[1])
+                for kw in st.iter.keywords:
+                    if kw.arg == "start":
+                        start = const(kw.value)
+                if isinstance(tab, (ast.Tuple, ast.List)) and isinstance(start, int):
+                    st.iter = ast.copy_location(ast.Tuple(elts=[ast.copy_location(ast.Tuple(elts=[ast.copy_location(ast.Constant(value=start + k_), st), copy.deepcopy(e_)], ctx=ast.Load()), st)
+                                                                 for k_, e_ in enumerate(tab.elts)], ctx=ast.Load()), st.iter)
+        ast.fix_missing_locations(node)
         keep = {n.func.attr for n in ast.walk(node) if isinstance(n, ast.Call) and isinstance(n.func, ast.Attribute)}
         node.body = normalise_statements(idx, f.module, node.body, keep=tuple(keep), depth=0)
         cache[f.key] = (node, op)
